@@ -72,7 +72,7 @@ fn replay(args: &[String]) -> i32 {
     let profiles: Vec<usize> = arg(args, "--profiles").unwrap_or("5").split(',').map(|s| s.parse().unwrap()).collect();
     let seed: u64 = arg(args, "--seed").unwrap_or("0").parse().unwrap();
     let threads: usize = arg(args, "--threads").unwrap_or("16").parse().unwrap();
-    let max_fail: usize = arg(args, "--max-fail").unwrap_or("50").parse().unwrap();
+    let max_fail: usize = arg(args, "--max-fail").unwrap_or("25").parse().unwrap();
 
     let f = std::fs::File::open(vec_path).expect("open vectors");
     let vectors: Vec<Value> = std::io::BufReader::new(f)
@@ -94,14 +94,15 @@ fn replay(args: &[String]) -> i32 {
     let items = Arc::new(items);
     let next = Arc::new(AtomicUsize::new(0));
     let fails: Arc<Mutex<Vec<Value>>> = Arc::new(Mutex::new(vec![]));
+    let buckets: Arc<Mutex<BTreeMap<String, usize>>> = Arc::new(Mutex::new(BTreeMap::new()));
     let stats: Arc<Mutex<BTreeMap<String, [u64; 4]>>> = Arc::new(Mutex::new(BTreeMap::new()));
     let notes: Arc<Mutex<BTreeMap<String, u64>>> = Arc::new(Mutex::new(BTreeMap::new()));
     // silence panic messages from catch_unwind'ed aborts
     std::panic::set_hook(Box::new(|_| {}));
     let mut hs = vec![];
     for _ in 0..threads {
-        let (vectors, items, next, fails, stats, notes, tables) =
-            (vectors.clone(), items.clone(), next.clone(), fails.clone(), stats.clone(), notes.clone(), tables.clone());
+        let (vectors, items, next, fails, stats, notes, tables, buckets) =
+            (vectors.clone(), items.clone(), next.clone(), fails.clone(), stats.clone(), notes.clone(), tables.clone(), buckets.clone());
         hs.push(std::thread::Builder::new().stack_size(64 << 20).spawn(move || {
             let mut local: BTreeMap<String, [u64; 4]> = BTreeMap::new();
             let mut lnotes: BTreeMap<String, u64> = BTreeMap::new();
@@ -127,8 +128,14 @@ fn replay(args: &[String]) -> i32 {
                 }
                 if !o.ok {
                     e[1] += 1;
+                    // keep at most max_fail records per kind of failure (act, reason, predicted outcome, scheme), so that a
+                    // frequent (possibly known) kind never crowds out a rare one
+                    let bucket = format!("{}|{}|{}|{}", v["act"].as_str().unwrap_or(""), o.why, v["expect"], v.get("scheme").or_else(|| v.get("ct").and_then(|c| c.get("scheme0"))).unwrap_or(&Value::Null));
                     let mut f = fails.lock().unwrap();
-                    if f.len() < max_fail {
+                    let mut b = buckets.lock().unwrap();
+                    let cnt = b.entry(bucket).or_insert(0usize);
+                    if *cnt < max_fail && f.len() < 20 * max_fail {
+                        *cnt += 1;
                         f.push(json!({"vector": v, "group": g, "atom_len": p, "seed": seed, "observed": o.obs, "why": o.why}));
                     }
                 }
